@@ -1029,6 +1029,11 @@ func runCheck(o *Options) (int, *Evidence) {
 			continue
 		}
 		mine := hasTag(ob.Tags, o.prop)
+		if !mine && ob.Kind == "requires" && ob.Status == "failed-sat" && funcTagged[ob.Func] && externalCallee(sp, n) {
+			// the precondition of a library function (its panic condition) definitely fails in a
+			// function that carries clauses of this property
+			mine = true
+		}
 		if !mine && ob.Kind == "safety" && ob.Status == "failed-sat" && funcTagged[ob.Func] {
 			// a definite arithmetic / bounds failure in a function that carries clauses of this
 			// property: the proof of those clauses assumed machine arithmetic to be exact
@@ -1224,6 +1229,30 @@ func runCheck(o *Options) (int, *Evidence) {
 	}
 	fmt.Printf("OK property=%s obligations=%d discharged=%d queries=%d functions=%d solver_s=%.1f\n", o.prop, nOb, nDis, len(jobs), len(funcs), solverSeconds)
 	return 0, ev
+}
+
+// externalCallee: the obligation is a precondition at a call of a function outside the repository
+// (name "...#call[N:pkg.Func]:requires:...").
+func externalCallee(sp *Specs, name string) bool {
+	i := strings.Index(name, "#call[")
+	if i < 0 {
+		return false
+	}
+	rest := name[i+len("#call["):]
+	j := strings.Index(rest, "]:requires")
+	if j < 0 {
+		return false
+	}
+	callee := rest[:j]
+	if c := strings.Index(callee, ":"); c >= 0 {
+		callee = callee[c+1:]
+	}
+	for k, f := range sp.Funcs {
+		if f.External && (k == callee || strings.HasSuffix(k, "/"+callee)) {
+			return true
+		}
+	}
+	return false
 }
 
 func allCached(ob *Obligation) bool {
